@@ -4,10 +4,13 @@ Every layer's teardown function removes the entry of the closed handle / bearer 
 changes nothing else (frame).
 """
 from bumble import hci
+from bumble import host as _host
 from pyvc import ext_c16  # noqa: F401  (iteration over symbolic maps)
 from pyvc.ext_c16 import forall_keys
-from pyvc.contracts import (Any, Bool, Callback, Const, Inst, Int, IntRange, ListOf, MapOf, OneOf, Opaque, Opt, TupleOf, contract,
+from pyvc.contracts import (Any, Bool, Callback, Const, DequeOf, Event, Inst, Int, IntRange, ListOf, MapOf, OneOf, Opaque, Opt, TupleOf, contract,
                             forall, iff, implies, lemma, mget, mhas, model)
+
+from contracts.c16_env import CANCELLED, EXCEPTION, FUT, FUT_INLINE, PENDING, RESULT, fst, fut_released
 
 ENVIRONMENT = []
 
@@ -15,30 +18,60 @@ HANDLE = IntRange(0, 0xFFFF)
 
 
 # ---------------------------------------------------------------------------
-# Host.on_hci_disconnection_complete_event
+# Host: Disconnection Complete, transport lost, flush
 # ---------------------------------------------------------------------------
-def host_emit(ghost, name, *args):
-    """Host.emit: the fan-out to Device / ChannelManager listeners (their own contracts prove no exception escapes);
-    records the events in order together with whether the closed handle was still registered when they ran"""
-    ghost.events = ghost.events + [(EV[name], args[0], args[1])]
-
-
 EV = {'disconnection': 1, 'disconnection_failure': 2, 'flush': 3}
+Q_ACL, Q_LE, Q_ISO = 1, 2, 3
 
 
-def q_flush(ghost, handle):
-    ghost.flushed = ghost.flushed + [handle]
+def host_emit(ghost, name, *args):
+    """Host.emit: the fan-out to the listeners (Device.on_disconnection / on_flush, ChannelManager.on_disconnection:
+    their own contracts below prove that no exception escapes them); records (event, handle, reason|status) in order"""
+    ghost.events = ghost.events + [(EV[name], args[0] if len(args) > 0 else 0, args[1] if len(args) > 1 else 0)]
 
 
-model('bumble.host:Connection#c16', fields=dict(handle=(Int, 0)))
-model('bumble.host:ScoLink#c16', fields=dict(handle=(Int, 0)))
-model('bumble.host:IsoLink#c16', fields=dict(handle=(Int, 0)))
-model('ghost:Queue#c16', fields={}, methods={'flush': Callback('flush', effect=q_flush)})
+def acl_flush(ghost, handle):
+    ghost.flushed = ghost.flushed + [(Q_ACL, handle)]
+
+
+def le_flush(ghost, handle):
+    ghost.flushed = ghost.flushed + [(Q_LE, handle)]
+
+
+def iso_flush(ghost, handle):
+    ghost.flushed = ghost.flushed + [(Q_ISO, handle)]
+
+
+def acl_reset(ghost):
+    ghost.resets = ghost.resets + [Q_ACL]
+
+
+def le_reset(ghost):
+    ghost.resets = ghost.resets + [Q_LE]
+
+
+def iso_reset(ghost):
+    ghost.resets = ghost.resets + [Q_ISO]
+
+
 def flags_pop(ghost, handle, default):
     ghost.flag_pops = ghost.flag_pops + [handle]
 
 
-model('ghost:Flags#c16', fields={}, methods={'pop': Callback('pop', effect=flags_pop)})
+def flags_clear(ghost):
+    ghost.flag_clears = ghost.flag_clears + 1
+
+
+# recording stubs for the three DataPacketQueue objects (DataPacketQueue.flush itself: contracts/c04_flow.py, C04 P4:
+# no packet of the handle remains, its per-connection state is forgotten; DataPacketQueue.reset: below)
+model('ghost:AclQueue#c16', fields={}, methods={'flush': Callback('flush', effect=acl_flush), 'reset': Callback('reset', effect=acl_reset)})
+model('ghost:LeQueue#c16', fields={}, methods={'flush': Callback('flush', effect=le_flush), 'reset': Callback('reset', effect=le_reset)})
+model('ghost:IsoQueue#c16', fields={}, methods={'flush': Callback('flush', effect=iso_flush), 'reset': Callback('reset', effect=iso_reset)})
+model('ghost:IntDict#c16', fields={}, methods={'pop': Callback('pop', effect=flags_pop), 'clear': Callback('clear', effect=flags_clear)})
+model('ghost:Semaphore#c16', fields={}, methods={'acquire': Callback('acquire', is_async=True), 'release': Callback('release')})
+model('bumble.host:Connection#c16', fields=dict(handle=(HANDLE, 0)))
+model('bumble.host:ScoLink#c16', fields=dict(connection_handle=(HANDLE, 0)))
+model('bumble.host:IsoLink#c16', fields=dict(handle=(HANDLE, 0)))
 model('bumble.hci:HCI_Disconnection_Complete_Event#c16', fields=dict(status=IntRange(0, 255), connection_handle=HANDLE, reason=IntRange(0, 255)))
 model(
     'bumble.host:Host#c16',
@@ -47,24 +80,124 @@ model(
         cis_links=MapOf('bumble.host:IsoLink#c16'),
         sco_links=MapOf('bumble.host:ScoLink#c16'),
         bis_links=MapOf('bumble.host:IsoLink#c16'),
-        link_ts_flags=Inst('ghost:Flags#c16'),
-        acl_packet_queue=Opt(Inst('ghost:Queue#c16')),
-        le_acl_packet_queue=Opt(Inst('ghost:Queue#c16')),
-        iso_packet_queue=Opt(Inst('ghost:Queue#c16')),
+        bigs=Inst('ghost:IntDict#c16'),
+        link_ts_flags=Inst('ghost:IntDict#c16'),
+        acl_packet_queue=Opt(Inst('ghost:AclQueue#c16')),
+        le_acl_packet_queue=Opt(Inst('ghost:LeQueue#c16')),
+        iso_packet_queue=Opt(Inst('ghost:IsoQueue#c16')),
+        pending_response=Opt(FUT),
+        command_semaphore=Inst('ghost:Semaphore#c16'),
     ),
     methods={'emit': Callback('emit', effect=host_emit)},
 )
+HOST = Inst('bumble.host:Host#c16')
+HOST_GHOST = dict(events=ListOf(TupleOf(Int, Int, Int)), flushed=ListOf(TupleOf(Int, Int)), resets=ListOf(Int), flag_pops=ListOf(Int), flag_clears=Int, g=HANDLE)
+HOST_TABLES = ['self.connections', 'self.cis_links', 'self.sco_links']
+
+
+def host_links(host, h):
+    """in how many of the host's link tables the handle is registered"""
+    return (1 if mhas(host.connections, h) else 0) + (1 if mhas(host.cis_links, h) else 0) + (1 if mhas(host.sco_links, h) else 0)
+
+
+def host_others_kept(new, old, h, g):
+    return implies(g != h, iff(mhas(new.connections, g), mhas(old.connections, g)) and iff(mhas(new.cis_links, g), mhas(old.cis_links, g))
+                   and iff(mhas(new.sco_links, g), mhas(old.sco_links, g)))
+
+
+def host_all_kept(new, old, g):
+    return iff(mhas(new.connections, g), mhas(old.connections, g)) and iff(mhas(new.cis_links, g), mhas(old.cis_links, g)) and iff(mhas(new.sco_links, g), mhas(old.sco_links, g))
+
+
+def queue_flushes(host, h):
+    """every data queue the host has is flushed for the handle, each once (the LE queue may be the ACL queue itself:
+    DataPacketQueue.flush of a forgotten handle changes nothing, C04)"""
+    return (([(Q_ACL, h)] if host.acl_packet_queue is not None else []) + ([(Q_LE, h)] if host.le_acl_packet_queue is not None else [])
+            + ([(Q_ISO, h)] if host.iso_packet_queue is not None else []))
+
+
+def queue_resets(host):
+    return (([Q_ACL] if host.acl_packet_queue is not None else []) + ([Q_LE] if host.le_acl_packet_queue is not None else [])
+            + ([Q_ISO] if host.iso_packet_queue is not None else []))
+
+
+def disc_complete_post(self, event, old, ghost):
+    h = event.connection_handle
+    known = host_links(old.self, h) >= 1
+    ok = known and event.status == 0
+    return [
+        # the closed handle is no longer a live link of the host (handles are unique across the three tables:
+        # the controller allocates them from one space)
+        implies(ok, not mhas(self.connections, h)),
+        implies(ok and host_links(old.self, h) <= 1, host_links(self, h) == 0),
+        # nothing else changed in the tables
+        host_others_kept(self, old.self, h, ghost.g),
+        implies(not ok, host_all_kept(self, old.self, h)),
+        # the layers above are told exactly once (Device, ChannelManager listen to 'disconnection')
+        implies(ok, ghost.events == old.ghost.events + [(1, h, event.reason)]),
+        # the data queued for the handle is discarded in every queue, the ISO time-stamp flag forgotten
+        implies(ok, ghost.flushed == old.ghost.flushed + queue_flushes(self, h) and ghost.flag_pops == old.ghost.flag_pops + [h]),
+        # a failed disconnection: only the failure is reported
+        implies(known and event.status != 0, ghost.events == old.ghost.events + [(2, h, event.status)] and ghost.flushed == old.ghost.flushed and ghost.flag_pops == old.ghost.flag_pops),
+        # an unknown handle: nothing happens
+        implies(not known, ghost.events == old.ghost.events and ghost.flushed == old.ghost.flushed and ghost.flag_pops == old.ghost.flag_pops),
+    ]
+
 
 contract(
     'bumble.host:Host.on_hci_disconnection_complete_event',
     prop='C16',
-    params=dict(self=Inst('bumble.host:Host#c16'), event=Inst('bumble.hci:HCI_Disconnection_Complete_Event#c16')),
-    ghost=dict(events=ListOf(TupleOf(Int, Int, Int)), flushed=ListOf(Int), flag_pops=ListOf(Int), h=HANDLE),
-    ensures=lambda self, event, old, ghost: [
-        implies(event.status == 0, not mhas(self.connections, event.connection_handle)),
-    ],
-    ensures_names=['gone-from-connections'],
-    modifies=['self.connections', 'self.cis_links', 'self.sco_links', 'ghost.flag_pops', 'ghost.events', 'ghost.flushed'],
+    params=dict(self=HOST, event=Inst('bumble.hci:HCI_Disconnection_Complete_Event#c16')),
+    ghost=HOST_GHOST,
+    ensures=disc_complete_post,
+    ensures_names=['gone-from-connections', 'gone-from-every-link-table', 'other-links-kept', 'no-change-unless-success', 'listeners-told-once',
+                   'every-data-queue-flushed-for-the-handle', 'failure-only-reported', 'unknown-handle-ignored'],
+    modifies=HOST_TABLES + ['ghost.flag_pops', 'ghost.events', 'ghost.flushed'],
+)
+
+
+def host_flushed_post(self, old, ghost):
+    """after a flush (transport lost, Host.flush before a reset / power off) the host holds no link and no queued data:
+    the device drops all its connections on the 'flush' event, and the controller side no longer exists"""
+    return [
+        ghost.events == old.ghost.events + [(3, 0, 0)],
+        not mhas(self.connections, ghost.g),
+        not mhas(self.cis_links, ghost.g) and not mhas(self.sco_links, ghost.g) and not mhas(self.bis_links, ghost.g),
+        ghost.resets == old.ghost.resets + queue_resets(self),
+    ]
+
+
+FLUSHED_NAMES = ['flush-emitted-exactly-once', 'no-connection-left', 'no-other-link-left', 'every-data-queue-emptied']
+FLUSH_MOD = HOST_TABLES + ['self.bis_links', 'ghost.events', 'ghost.resets', 'ghost.flag_clears']
+
+contract(
+    'bumble.host:Host.on_transport_lost',
+    prop='C16',
+    params=dict(self=HOST),
+    ghost=HOST_GHOST,
+    ensures=lambda self, old, ghost: [
+        # whoever waits for an HCI response is released, with an error (not left pending, not silently cancelled)
+        fut_released(self.pending_response),
+        implies(fst(old.self.pending_response) == PENDING, fst(self.pending_response) == EXCEPTION),
+        implies(fst(old.self.pending_response) != PENDING, fst(self.pending_response) == fst(old.self.pending_response)),
+    ] + host_flushed_post(self, old, ghost),
+    ensures_names=['pending-command-released', 'pending-command-failed-with-error', 'finished-response-untouched'] + FLUSHED_NAMES,
+    modifies=FLUSH_MOD + ['self.pending_response.st'],
+    inline=FUT_INLINE + ['TransportLostError.__init__', 'BaseBumbleError.__init__', 'Host._forget_links'],
+    note='no `raises`: in whatever state the pending response future is (pending, already resolved by the response that just arrived, '
+         'cancelled by its caller), no exception escapes and the flush is emitted',
+)
+
+contract(
+    'bumble.host:Host.flush',
+    prop='C16',
+    params=dict(self=HOST),
+    ghost=HOST_GHOST,
+    ensures=host_flushed_post,
+    ensures_names=FLUSHED_NAMES,
+    modifies=FLUSH_MOD,
+    inline=['Host._forget_links'],
+    note='the command-semaphore protocol of flush is C03 (contracts/c03_commands.py); here: what the flush leaves behind',
 )
 
 
@@ -196,3 +329,88 @@ contract(
     decorators_ok=['host_event_handler'],
     note='host_event_handler returns the function unchanged',
 )
+
+
+# ---------------------------------------------------------------------------
+# DataPacketQueue: a task waiting in drain(handle) is released when the handle is flushed (the queue content of flush
+# is C04); DataPacketQueue.reset (present on a tree with notes/C16/fix-2.diff) empties the queue
+# ---------------------------------------------------------------------------
+PCS = 'bumble.host:DataPacketQueue.PerConnectionState'
+model(PCS + '#c16', fields=dict(in_flight=(Int, 0), drained=(Event(), False)))
+model(
+    'bumble.host:DataPacketQueue#c16',
+    fields=dict(
+        max_packet_size=Int,
+        max_in_flight=Int,
+        _in_flight=Int,
+        _connection_state=MapOf(PCS + '#c16', default_factory=True),
+        _send=Callback('_send'),
+        _packets=DequeOf(TupleOf(Opaque('pkt'), Int)),
+        _queued=Int,
+        _completed=Int,
+    ),
+    methods={'emit': Callback('emit')},
+)
+DPQ = Inst('bumble.host:DataPacketQueue#c16')
+
+
+def keep_others(entries, h):
+    return [(p, x) for (p, x) in entries if x != h]
+
+
+def lemma_drain_released_by_flush(q, h):
+    """whoever awaits `connection_state.drained.wait()` in DataPacketQueue.drain(h) holds the Event object of the
+    state registered at that time; flush(h) sets exactly that event (and forgets the state)"""
+    state = q._connection_state.get(h)
+    if state is not None:
+        waiting_on = state.drained
+        q.flush(h)
+        assert waiting_on.is_set(), 'drain-waiter-released'
+        assert h not in q._connection_state, 'state-forgotten'
+
+
+lemma(
+    'drain_released_by_flush',
+    lemma_drain_released_by_flush,
+    prop='C16',
+    params=dict(q=DPQ, h=HANDLE),
+    inline=['DataPacketQueue.flush', 'DataPacketQueue._check_queue'],
+    # sending the packets that wait for other connections neither re-creates the state of h nor touches its event
+    invariants={('DataPacketQueue._check_queue', 0): lambda q, h, old: [
+        len(q._packets) <= len(keep_others(list(old.q._packets), h)),
+        list(q._packets) == keep_others(list(old.q._packets), h)[: len(q._packets)],
+        not mhas(q._connection_state, h),
+        mget(q._connection_state, h, 'drained'),
+    ]},
+    modifies=['q._in_flight', 'q._packets', 'q._connection_state', 'q._completed'],
+)
+
+
+def lemma_queue_reset(q, h):
+    """DataPacketQueue.reset(): nothing queued, nothing in flight, no per-connection state, and whoever waits in
+    drain(h) for any connection h is released (h is arbitrary)"""
+    state = q._connection_state.get(h)
+    waiting_on = state.drained if state is not None else None
+    q.reset()
+    assert len(q._packets) == 0, 'no-packet-left'
+    assert q._in_flight == 0 and q._completed == q._queued, 'nothing-in-flight-nothing-pending'
+    assert h not in q._connection_state, 'state-forgotten'
+    if waiting_on is not None:
+        assert waiting_on.is_set(), 'drain-waiter-released'
+
+
+if hasattr(_host.DataPacketQueue, 'reset'):
+    lemma(
+        'queue_reset',
+        lemma_queue_reset,
+        prop='C16',
+        params=dict(q=DPQ, h=HANDLE),
+        inline=['DataPacketQueue.reset'],
+        invariants={('DataPacketQueue.reset', 0): lambda q, h, old, _seen: [
+            forall_keys(q._connection_state, lambda k: mhas(old.q._connection_state, k)),
+            forall_keys(old.q._connection_state, lambda k: mhas(q._connection_state, k)),
+            implies(mhas(_seen, h), mget(q._connection_state, h, 'drained')),
+        ]},
+        modifies=['q._in_flight', 'q._packets', 'q._connection_state', 'q._completed'],
+        note='only on a tree that has DataPacketQueue.reset (notes/C16/fix-2.diff)',
+    )
